@@ -1,11 +1,23 @@
-"""Per-property registry used to generate MANIFEST.json (tools/gen_manifest.py)."""
-CHECKS = {
- "C06": dict(
-   technique="Coq refinement proof (model -> ideal bounded queue / delay line) + coqc-evaluated model vs crate correspondence",
-   text="Machine-checked (Coq 8.16.1) refinement of a model of Bounded/Fixed, written after the source with the same index arithmetic, to an ideal capacity-bounded queue and an ideal delay line: every operation from every valid (start,len)/first state of every capacity, hence every history; no UB, no unprescribed panic. The model is tied to the crate by running its executable definitions inside coqc on the same operation sequences (every raw state of small capacities x every operation, random histories) and comparing all observations exactly.",
-   note="Trusted: Coq kernel; the hand-written model (Rust slices as lists, usize as nat, mem::replace/ptr::read/write as list updates) validated only through the correspondence; harness + python generators. Axioms: none.",
-   design="6/C06"),
-}
-NOT_APPLICABLE = {}
+"""Registry used to generate MANIFEST.json (tools/gen_manifest.py): every lib/props/cXX.py that
+defines META is a claimed check; everything else is listed as not claimed with a reason."""
+import os, importlib, glob, sys
+HERE = os.path.dirname(os.path.abspath(__file__))
+sys.path.insert(0, HERE)
+ALL = ["C%02d" % i for i in range(1, 21)]
 HOOK_COMMITS = ["a2dc73d", "b47fde1", "332711d"]
-NOT_YET = ["C01","C02","C03","C04","C05","C07","C08","C09","C10","C11","C12","C13","C14","C15","C16","C17","C18","C19","C20"]
+# properties the technique genuinely cannot decide (none so far; see DESIGN.md section 9)
+NOT_APPLICABLE = {}
+
+
+def checks():
+    out = {}
+    for f in sorted(glob.glob(os.path.join(HERE, "props", "c[0-9][0-9].py"))):
+        name = os.path.basename(f)[:-3]
+        mod = importlib.import_module("props." + name)
+        if hasattr(mod, "META"):
+            out[name.upper()] = mod.META
+    return out
+
+
+CHECKS = checks()
+NOT_YET = [p for p in ALL if p not in CHECKS and p not in NOT_APPLICABLE]
